@@ -847,7 +847,11 @@ func (parser *Parser) parseOperand(depth int) (Sexp, error) {
 			}
 			continue
 		}
-		expr, err := parser.ParseExpression(depth + 1)
+		// a prefix operator opens nothing: its operand is at the
+		// operator's own depth (so that %%a at the end of a text, the
+		// operand of the inner % still pending in the lexer, is
+		// complete, as %a is).
+		expr, err := parser.ParseExpression(depth)
 		if err != nil {
 			return SexpEnd, err
 		}
